@@ -144,11 +144,28 @@ class Report(object):
         p = partial
         self.log('part %-28s exec=%d nodes=%d edges=%d outcomes=%d violations=%d'
                  % (name, p.n['exec'], p.n['nodes'], p.n['edges'], len(p.outcomes), p.nviol))
+        if p.nviol and os.environ.get('VERIF_FAILFAST'):
+            # development aid (tools/mutsweep.py): stop at the first violating part; no evidence is written.  A known
+            # finding is not a violation, so parts whose violations all match known findings do not stop the run.
+            known = [f for f in load_findings().get('findings', []) if f.get('property') == self.pid]
+            unk = [s for s in p.sigs if not any(f.get('part') in (None, name) and re.fullmatch(f['sig_regex'], s) for f in known)]
+            if unk:
+                print('FAILFAST property=%s part=%s sig=%s n=%d' % (self.pid, name, sorted(unk)[0][:160], p.nviol), flush=True)
+                print('VIOLATION property=%s replay=none(failfast)' % self.pid, flush=True)
+                sys.stdout.flush()
+                os._exit(1)
 
     # ------------------------------------------------------------------
     def _confirm(self, path):
         """Re-run the replay artefact twice in fresh processes; require identical observations."""
         outs = []
+        with open(path) as f:
+            case = json.load(f).get('case')
+        if isinstance(case, dict) and '$crash' in case:
+            if True:
+                # an exception that escaped from the implementation: the traceback is the artefact; replaying it means
+                # re-running the check (see mc.run), which is not repeated here
+                return 'violated', ['crash']
         for _ in range(2):
             r = subprocess.run([sys.executable, '-m', 'mc.run', 'replay', path], cwd=VERIF,
                                capture_output=True, text=True, timeout=600)
